@@ -20,6 +20,7 @@ from __future__ import annotations
 import json
 import os
 import re
+import shutil
 import warnings
 from unittest.mock import Mock
 
@@ -243,6 +244,7 @@ def replay_bids(rec, root, idx, do_fs, words=WORDS):
                 except Exception as ex:
                     out.append(('viol', f'C20/b/{kind}/file', f'look-up does not find the file at the place '
                                 f'the entities name: {_exc(ex)}', {**case, 'want': wantp, 'error': str(ex)[:200]}))
+        shutil.rmtree(base, ignore_errors=True)
     return n, out, True
 
 
@@ -358,6 +360,13 @@ def _project_rdms(rdms):
 
 
 def replay_meadows(rec, root, idx, words=WORDS):
+    try:
+        return _replay_meadows(rec, root, idx, words)
+    finally:
+        shutil.rmtree(os.path.join(root, f'm{idx}'), ignore_errors=True)
+
+
+def _replay_meadows(rec, root, idx, words=WORDS):
     from rsatoolbox.io.meadows import load_rdms, extract_filename_segments
     out = []
     i, x = rec['i'], rec['expect']
@@ -495,10 +504,13 @@ def record_meadows(rng, root, idx, petnames):
     os.makedirs(d, exist_ok=True)
     path = os.path.join(d, fname)
     _write_meadows(path, shape, ft, files, stim, parts, layout, variant=int(rng.integers(2)))
-    with warnings.catch_warnings():
-        warnings.simplefilter('ignore')
-        rdms = load_rdms(path, sort=bool(sort))
-    info = extract_filename_segments(path)
+    try:
+        with warnings.catch_warnings():
+            warnings.simplefilter('ignore')
+            rdms = load_rdms(path, sort=bool(sort))
+        info = extract_filename_segments(path)
+    finally:
+        shutil.rmtree(d, ignore_errors=True)
     g = _project_rdms(rdms)
     atoms = lx.lex(fname, known_only=False)
     rank = {v: k for k, v in stim.items()}
@@ -736,7 +748,10 @@ def _spm_object(runs, via_mat=None):
                   'erdf': 1.0, 'W': np.eye(T), 'pKX': np.eye(T)[:2, :]}}
     savemat(os.path.join(via_mat, 'SPM.mat'), {'SPM': SPM})
     spm = SpmGlm(via_mat, Mock())
-    spm.get_info_from_spm_mat()
+    try:
+        spm.get_info_from_spm_mat()
+    finally:
+        shutil.rmtree(via_mat, ignore_errors=True)
     return spm
 
 
